@@ -100,6 +100,7 @@ pub mod sfmt {
     pub struct Rec { pub newtype_calls: u8, pub name_ok: bool, pub prim_kind: u8, pub bits: u128, pub other_calls: u8 }
     pub const EMPTY: Rec = Rec { newtype_calls: 0, name_ok: false, prim_kind: 0, bits: 0, other_calls: 0 };
     pub static mut SER_FAIL: bool = false;
+    pub static mut LAST_STR: Option<String> = None;
 
     pub struct RecSer { pub depth: u8 }
     macro_rules! ser_prim {
@@ -136,6 +137,7 @@ pub mod sfmt {
         ser_prim!(serialize_char, char, 14, |v| v as u128);
         fn serialize_str(self, v: &str) -> Result<Rec, DErr> {
             if unsafe { SER_FAIL } { return Err(DErr::Inner); }
+            unsafe { LAST_STR = Some(v.to_string()); }
             let b = v.as_bytes();
             let mut acc: u128 = b.len() as u128;
             let mut i = 0;
